@@ -89,7 +89,7 @@ func c12(c *core.Ctx) {
 	}
 
 	// ---------------------------------------------------------------- R1
-	if c.Rule("R1", "malformed method names cannot panic: every index/slice expression in the in-process entry points is in range on all paths", 6) {
+	if c.Rule("R1", "malformed method names cannot panic: every index/slice expression in the in-process entry points is in range on all paths, and nothing found under the name in a keyed container is type-asserted unchecked", 6) {
 		if len(eps) < 2 {
 			c.Missing("inprocgrpc channel type with Invoke and NewStream")
 		}
@@ -125,6 +125,40 @@ func c12(c *core.Ctx) {
 				} else {
 					c.Fail(e.name+":"+ob.Desc, ob.Instr.Pos(), "%s can be out of range for a malformed method name (%s): panic instead of a status error", ob.Desc, ob.Why)
 				}
+			}
+			// ... nor through an unchecked type assertion on something found under the name (e.g. a lookup cache
+			// shared by unary and streaming entries: the other kind's name panics)
+			nTA := 0
+			core.InstrsDeep(e.fn, func(f *ssa.Function, in ssa.Instruction) {
+				ta, ok := in.(*ssa.TypeAssert)
+				if !ok || ta.CommaOk {
+					return
+				}
+				// an assertion on the value of a container keyed by a string (map / sync.Map lookups)
+				fromLookup := false
+				for _, o := range core.Origins(ta.X) {
+					if call, _, isCall := core.CallResult(o); isCall {
+						ci := core.InfoOf(&call.Call)
+						if ci.Pkg == "sync" && ci.Recv == "Map" {
+							fromLookup = true
+						}
+					}
+					if _, isL := o.(*ssa.Lookup); isL {
+						fromLookup = true
+					}
+					if ex, isEx := o.(*ssa.Extract); isEx {
+						if _, isL := ex.Tuple.(*ssa.Lookup); isL {
+							fromLookup = true
+						}
+					}
+				}
+				if fromLookup {
+					nTA++
+					c.Fail(e.name+":assert("+core.TypeStr(ta.AssertedType)+"):unchecked", ta.Pos(), "what a lookup keyed by the method name returned is type-asserted without the comma-ok form: a name stored by the other kind of entry point (unary vs. streaming) panics here instead of failing with a status error")
+				}
+			})
+			if nTA == 0 {
+				c.OkTrivial(e.name+":no-unchecked-assertion-on-lookups", e.fn.Pos(), "no unchecked type assertion on the result of a keyed lookup in this entry point")
 			}
 		}
 		c.EndRule()
